@@ -248,7 +248,7 @@ theorem validWrite_cases {uf : List AppId} {i : Nat} {e : AppId} (h : validWrite
         | some tgt =>
           rw [htgt] at h3
           simp only [Bool.and_eq_true, beq_iff_eq] at h3
-          exact .merge old tgt hlen hold hlead hid htgt h3.1 (fun v hv => mem_of_subset h3.2 hv)
+          exact .merge old tgt hlen hold hlead hid htgt h3.1.1.1.1 (fun v hv => mem_of_subset h3.1.1.1.2 hv)
 
 /-- **the table invariants survive every valid write** -/
 theorem write_inv {uf : List AppId} (hw : UfWF' uf) (hl : LeaderId' uf) {i : Nat} {e : AppId}
